@@ -104,11 +104,29 @@ def respond(falcon, resp, plan, dg):
         resp.content_type = 'application/octet-stream'
     elif kind == 'empty':
         resp.set_header('X-Digest-Path', urllib.parse.quote(dg['path']))
+    elif kind == 'bodies':
+        # every subset of the three body sources, falsy-but-not-None values included, in any order
+        resp.set_header('X-Digest-Path', urllib.parse.quote(dg['path']))
+        for attr_name, tag, value in plan['sources']:
+            setattr(resp, attr_name, body_value(tag, value))
+
+
+def body_value(tag, value):
+    if tag == 'bytes':
+        return value.encode('latin-1')
+    return value          # 'str', 'json' (any JSON value) or 'none'
 
 
 # --------------------------------------------------------------------------- abstract requests
 
+ADDRS = ['10.0.0.1', '10.0.0.2', '192.0.2.43', '::1', '198.51.100.7']
+
+
 def gen_path(rng):
+    if rng.random() < 0.45:
+        # request-target grammar: no raw '?' in the path, but its percent-encoded form and friends
+        toks = ['/', 'a', 'b', '%3F', '%2F', '+', '%20', '#', '%3f', '=', '&', '%23']
+        return '/' + ''.join(rng.choice(toks) for _ in range(rng.randint(0, 5)))
     segs = []
     for _ in range(rng.randint(0, 3)):
         segs.append(rng.choice(['a', 'b1', 'x-y', '%C3%A9', '%E6%97%A5', '%FF', '%20', 'a%2Fb', '%E2%82', '~u', '%41',
@@ -120,6 +138,11 @@ def gen_path(rng):
 
 
 def gen_query(rng):
+    r = rng.random()
+    if r < 0.4:
+        # the query may itself contain '?', '/', '#', encoded delimiters, '+' and encoded spaces
+        toks = ['a', 'q', '?', '&', '=', '%3F', '%2F', '+', '%20', '/', '#', 'n=1', 'next=/items?page=2', '1']
+        return ''.join(rng.choice(toks) for _ in range(rng.randint(0, 6)))
     parts = []
     for _ in range(rng.randint(0, 3)):
         parts.append(rng.choice(['q=1', 'a=b', 'a=c', 'n=42', 'n=x', 'e=', 'k', 'l=1,2', 'l=,', 's=%20%C3%A9', 'p=a+b',
@@ -139,20 +162,28 @@ def gen_headers(rng):
         elif nl == 'range':
             v = rng.choice(['bytes=0-9', 'bytes=-5', 'items=1-', 'bytes=9-1', 'junk'])
         elif nl == 'x-forwarded-for':
-            v = rng.choice(['1.1.1.1', '1.1.1.1, 2.2.2.2'])
+            v = rng.choice([', ', ',', ' , ']).join(rng.choice(ADDRS) for _ in range(rng.randint(1, 3)))
         elif nl == 'x-forwarded-proto':
             v = rng.choice(['https', 'HTTP'])
         elif nl == 'x-forwarded-host':
             v = 'fw.example.com'
         elif nl == 'forwarded':
-            v = rng.choice(['for=192.0.2.43;proto=https;host=f.example.com', 'for="[2001:db8::1]:80", for=10.1.1.1',
-                            'host="q\\"x"', 'for="1.2.3.4:_o"', ''])
+            def node():
+                a = rng.choice(ADDRS)
+                if ':' in a:
+                    return rng.choice(['"[%s]"' % a, '"[%s]:4711"' % a])
+                return rng.choice([a, '"%s:4711"' % a, '"%s:_o"' % a])
+            v = rng.choice([', ', ',']).join(
+                'for=' + node() + rng.choice(['', ';proto=https', ';host=f.example.com', ';by=' + rng.choice(ADDRS[:3])])
+                for _ in range(rng.randint(1, 3)))
+            if rng.random() < 0.15:
+                v = rng.choice(['host="q\\"x"', '', 'proto=https'])
         elif nl == 'cookie':
             v = rng.choice(['a=1', 'a=1; b=2; a=3', 'a="q\\073z"', 'sid=""', 'junk'])
         elif nl == 'if-modified-since':
             v = rng.choice(['Tue, 15 Nov 1994 12:45:26 GMT', 'yesterday'])
         elif nl == 'x-real-ip':
-            v = '3.3.3.3'
+            v = rng.choice(ADDRS)
         else:
             v = rng.choice(['v', 'a, b', 'caf\xe9', 'x y', '0'])
         hs.append((''.join(c.upper() if rng.random() < 0.5 else c.lower() for c in n), v))
@@ -178,7 +209,8 @@ def gen_req(rng):
     port = rng.choice([80, 443, 8080])
     return {'method': method, 'path': gen_path(rng), 'query': gen_query(rng), 'headers': hs, 'body': body,
             'scheme': scheme, 'host': host, 'port': port, 'root_path': rng.choice(['', '', '/app']),
-            'remote': rng.choice(['10.0.0.9', '192.0.2.43', '::1']),
+            'remote': rng.choice(ADDRS),        # the peer is drawn from the same pool as the hops
+            'style': rng.choice(['qs', 'inline', 'inline', 'params']),
             'chunks': rng.randint(1, 3)}
 
 
@@ -271,12 +303,43 @@ def drive_asgi(app, r):
     return norm_result(start['status'], [(k.decode('latin-1'), v.decode('latin-1')) for k, v in start['headers']], out)
 
 
+def simple_params(query):
+    """query strings that `params=` can express verbatim (k=v pairs of unreserved characters)"""
+    if not query:
+        return None
+    out = {}
+    for part in query.split('&'):
+        k, eq, v = part.partition('=')
+        if not eq or not k.isalnum() or not v.isalnum() or k in out:
+            return None
+        out[k] = v
+    return out
+
+
+def testing_target(r):
+    """How the same request line is handed to falcon.testing: the query inline in `path`
+    (also a bare trailing '?'), via query_string=, or via params=."""
+    style = r.get('style', 'qs')
+    if style == 'params':
+        p = simple_params(r['query'])
+        if p is not None:
+            return dict(path=r['path'], params=p)
+        style = 'inline'
+    if style == 'inline' and (r['query'] or r.get('chunks', 1) == 2):
+        return dict(path=r['path'] + '?' + r['query'])
+    if r['query'].startswith('?'):
+        # query_string= refuses a leading '?': only the inline form can express this request line
+        return dict(path=r['path'] + '?' + r['query'])
+    return dict(path=r['path'], query_string=r['query'])
+
+
 def drive_testing(testing, app, r):
     cl = testing.TestClient(app)
     hs = list(r['headers']) + [('User-Agent', UA)]
-    kw = dict(path=r['path'], query_string=r['query'], headers=hs, body=r['body'] or None,
+    kw = dict(headers=hs, body=r['body'] or None,
               host=r['host'], port=r['port'], protocol=r['scheme'], remote_addr=r['remote'],
               root_path=r['root_path'] or None)
+    kw.update(testing_target(r))
     res = cl.simulate_request(r['method'], **kw)
     return norm_result(res.status, list(res.headers.items()), res.content,
                        {k: c.value for k, c in res.cookies.items()})
@@ -319,9 +382,28 @@ def build_apps(falcon, opts, state):
     return wapp, aapp
 
 
+TEXTS = [('none', None), ('str', ''), ('str', 'tx'), ('str', 'caf\xe9'), ('bytes', ''), ('bytes', 'raw')]
+DATAS = [('none', None), ('bytes', ''), ('bytes', 'dt'), ('bytes', '\xff\x00')]
+MEDIAS = [('none', None), ('json', {}), ('json', []), ('json', 0), ('json', False), ('json', ''), ('json', {'k': 1}),
+          ('json', 'm'), ('json', [1, 2]), ('json', 0.5)]
+
+
+def gen_sources(rng):
+    srcs = []
+    if rng.random() < 0.6:
+        srcs.append(('text',) + rng.choice(TEXTS))
+    if rng.random() < 0.6:
+        srcs.append(('data',) + rng.choice(DATAS))
+    if rng.random() < 0.6:
+        srcs.append(('media',) + rng.choice(MEDIAS))
+    rng.shuffle(srcs)
+    return [list(x) for x in srcs]
+
+
 def gen_plan(rng):
-    kind = rng.choice(['media', 'text', 'data', 'empty', 'notfound', 'redirect', 'badrequest', 'text', 'media'])
-    return {'kind': kind, 'status': rng.choice([200, 200, 201, 202]) if kind != 'empty' else rng.choice([200, 204]),
+    kind = rng.choice(['media', 'text', 'data', 'empty', 'notfound', 'redirect', 'badrequest', 'text', 'media',
+                       'bodies', 'bodies', 'bodies', 'bodies'])
+    return {'kind': kind, 'sources': gen_sources(rng) if kind == 'bodies' else [], 'status': rng.choice([200, 200, 201, 202]) if kind != 'empty' else rng.choice([200, 204]),
             'set': [(rng.choice(['X-A', 'Cache-Control', 'Vary']), rng.choice(['1', 'no-cache', 'Accept']))
                     for _ in range(rng.randint(0, 2))],
             'append': [rng.choice([('X-A', 'z'), ('X-A', 'raw=1'), ('Link', '</x>; rel=next'), ('Set-Cookie', 'raw=1'),
@@ -330,6 +412,76 @@ def gen_plan(rng):
             'cookies': [(rng.choice(['sid', 'tok']), rng.choice(['v', 'a b']),
                          {'max_age': rng.choice([None, 60]), 'secure': rng.choice([None, False]),
                           'same_site': rng.choice([None, 'Lax'])}) for _ in range(rng.randint(0, 2))]}
+
+
+def joined_header(r, name):
+    vals = [v for n, v in full_headers(r) if n.lower() == name]
+    return [','.join(vals)] if vals else []
+
+
+def route_case(r):
+    return [1, True, joined_header(r, 'forwarded'), joined_header(r, 'x-forwarded-for'),
+            joined_header(r, 'x-real-ip'), [r['remote']]]
+
+
+def body_case(falcon, plan):
+    """text / data / media as the model sees them: Some(bytes) iff the attribute ends up not None;
+    media serialization (default JSON handler) is the oracle."""
+    from falcon import media as falcon_media
+    cur = {'text': None, 'data': None, 'media': None}
+    for attr_name, tag, value in plan.get('sources', []):
+        cur[attr_name] = body_value(tag, value)
+    text = cur['text']
+    if isinstance(text, str):
+        text = text.encode('utf-8')
+    rendered = None
+    if cur['media'] is not None:
+        rendered = falcon_media.JSONHandler().serialize(cur['media'], 'application/json')
+    opt = lambda b: [] if b is None else [b]   # noqa: E731
+    return [2, opt(text), opt(cur['data']), opt(rendered)]
+
+
+def judge_extra(ctx, r, opts, dw, da, results, plan, tt, o_route, o_body, o_split):
+    """Model predictions for the parts with a Coq theorem: access_route / remote_addr on both
+    stacks, the response body of a `bodies` plan, and the test client's target split."""
+    def route(v):
+        return [common.wstr(x) for x in v[1]] if v[0] == 0 else 'EXC ValueError' if v[0] == 2 else 'HTTP 400'
+    if dw is not None and da is not None:
+        pw, pa = route(o_route[0]), route(o_route[1])
+        ra = common.wstr(o_route[2][1]) if o_route[2][0] == 0 else None
+        rw = common.wstr(o_route[3])
+        got = {'access_route_w': dw['access_route'], 'access_route_a': da['access_route'],
+               'remote_addr_w': dw['remote_addr'], 'remote_addr_a': da['remote_addr']}
+        pred = {'access_route_w': pw, 'access_route_a': pa, 'remote_addr_w': rw,
+                'remote_addr_a': ra if ra is not None else da['remote_addr']}
+        if got != pred:
+            disagreements.append({'what': 'access_route / remote_addr differ from the model of the two classes',
+                                  'request': req_json(r), 'impl': got, 'model': pred})
+    if plan['kind'] == 'bodies' and r['method'] != 'HEAD':
+        exp = common.wopt(o_body[0], lambda b: bytes(b))
+        exp_a = common.wopt(o_body[1], lambda b: bytes(b))
+        for name, e in (('wsgi-driver', exp), ('asgi-driver', exp_a)):
+            res = results.get(name)
+            if not res or 'raised' in res or res['status'] >= 400:
+                continue
+            sent = res['body'].encode('latin-1')
+            cl = dict(res['headers']).get('content-length')
+            want = e or b''
+            if sent != want or (cl is not None and cl != str(len(want))):
+                ctx.violation('response-body-source',
+                              {'what': '%s sent a body other than the one render_body designates (text, else data, else '
+                                       'serialized media; empty values count as set)' % name,
+                               'request': req_json(r), 'plan': plan, 'sent': res['body'][:200],
+                               'content_length': cl, 'expected': want.decode('latin-1')[:200]},
+                              key='body-' + name)
+    # falcon.testing's view of the request line = the server's split at the first '?'
+    sim = common.wopt(o_split[0])
+    target = tt['path'] + ('?' + tt['query_string'] if tt.get('query_string') else '')
+    if 'params' not in tt:
+        want = (r['path'], r['query'])
+        if sim is None or (common.wstr(sim[0]), common.wstr(sim[1])) != want:
+            disagreements.append({'what': 'the model of the test client\'s target split does not give the request line',
+                                  'target': target, 'model': repr(sim), 'request_line': list(want)})
 
 
 def model_view(r, opts):
@@ -393,9 +545,15 @@ def main(ctx):
                                'request': req_json(r), 'options': list(opts), 'plan': state['plan'],
                                'pair': [base, other], 'differences': diffs[:6]}, key=key)
         cases.append(model_view(r, opts))
-        meta.append((r, opts, digests[base], digests['asgi-driver']))
-    outs = model.run_many(cases)
-    for (r, opts, dw, da), out in zip(meta, outs):
+        cases.append(route_case(r))
+        cases.append(body_case(falcon, state['plan']))
+        tt = testing_target(r)
+        cases.append([3, tt['path'], [tt['query_string']] if 'query_string' in tt else []])
+        meta.append((r, opts, digests[base], digests['asgi-driver'], dict(results), state['plan'], tt))
+    outs_all = model.run_many(cases)
+    for mi, (r, opts, dw, da, results, plan, tt) in enumerate(meta):
+        out, o_route, o_body, o_split = outs_all[4 * mi:4 * mi + 4]
+        judge_extra(ctx, r, opts, dw, da, results, plan, tt, o_route, o_body, o_split)
         if dw is None or da is None:
             continue
         pred = {'path_w': common.wstr(out[0]), 'path_a': common.wstr(out[1]), 'agree': bool(out[2]),
